@@ -58,6 +58,11 @@ structure Rot2 (α : Type) where
 def Rot2.ofAngle [Scalar α] (t : α) : Rot2 α := ⟨Scalar.cos t, Scalar.sin t⟩
 def Rot2.apply (r : Rot2 α) (v : V2 α) : V2 α := ⟨v.x * r.c - v.y * r.s, v.x * r.s + v.y * r.c⟩
 
+/-- `HashSet::insert` on the list model of a set (order of first insertion, no duplicates added) -/
+def setInsert (s : List Nat) (x : Nat) : List Nat := if s.contains x then s else s ++ [x]
+/-- `HashSet::remove` on the list model of a set -/
+def setRemove (s : List Nat) (x : Nat) : List Nat := s.filter (fun j => !(j == x))
+
 /-- Rust `slice.windows(2)`: the consecutive pairs, each as a two-element list -/
 def windows2 {β : Type} : List β → List (List β)
   | a :: b :: r => [a, b] :: windows2 (b :: r)
